@@ -161,8 +161,9 @@ class Report:
             samples=samples,
             exhaustive=bool(self.bounded) and all(b.get("exhaustive", False) for b in self.bounded),
             functions_under_contract=self.functions,
+            solver_s_total=round(sum(u.get("solver_s", 0) or 0 for u in self.units), 2),
             cbmc_units=[{k: u.get(k) for k in ("unit", "mode", "bound", "backend", "obligations", "discharged",
-                                                 "solver_s", "wall_s", "status", "rewrites", "dropped", "source",
+                                                 "solver_s", "symex_s", "wall_s", "status", "rewrites", "dropped", "source",
                                                  "entry", "enforced", "replaced", "loop_contract_obligations",
                                                  "vacuity", "reason")} for u in self.units],
             bounded_standins=[{k: b.get(k) for k in ("driver", "evaluations", "distinct_nontrivial", "rule", "bounds",
